@@ -5,3 +5,131 @@ pub open spec fn pae_header(t: Seq<char>, plen: nat) -> Seq<char> {
 pub open spec fn spec_pae(t: Seq<char>, p: Seq<u8>) -> Seq<u8> {
     vstd::utf8::encode_utf8(pae_header(t, p.len())) + p
 }
+
+// ---- the decoder as a mathematical function (mirrors consume_load_len / pae_unpack step by step) ----
+pub open spec fn is_sp() -> spec_fn(u8) -> bool { |b: u8| b == 0x20u8 }
+pub open spec fn spec_consume(raw: Seq<u8>) -> Option<(usize, Seq<u8>)> {
+    let i = first_idx(raw, is_sp());
+    let l = if i < raw.len() { raw.subrange(0, i) } else { raw };
+    if !vstd::utf8::valid_utf8(l) { None }
+    else if parse_spec::<usize>(vstd::utf8::decode_utf8(l)) is None { None }
+    else if i >= raw.len() { None }
+    else { Some((parse_spec::<usize>(vstd::utf8::decode_utf8(l))->0, raw.subrange(i + 1, raw.len() as int))) }
+}
+pub open spec fn pae_prefix() -> Seq<u8> { vstd::utf8::encode_utf8("DSSEv1"@ + " "@) }
+pub open spec fn spec_unpack(bytes: Seq<u8>) -> Option<(Seq<u8>, Seq<char>)> {
+    let pre = pae_prefix();
+    if !(pre.len() <= bytes.len() && bytes.subrange(0, pre.len() as int) == pre) { None } else {
+    let raw0 = bytes.subrange(pre.len() as int, bytes.len() as int);
+    match spec_consume(raw0) { None => None, Some((tlen, raw1)) =>
+    if raw1.len() <= tlen { None }
+    else if !vstd::utf8::valid_utf8(raw1.subrange(0, tlen as int)) { None }
+    else { match spec_consume(raw1.subrange(tlen + 1, raw1.len() as int)) { None => None, Some((plen, raw2)) =>
+    if raw2.len() < plen { None }
+    else { Some((raw2.subrange(0, plen as int), vstd::utf8::decode_utf8(raw1.subrange(0, tlen as int)))) } } } } }
+}
+
+// ---- lemmas: decimal rendering ----
+pub proof fn lemma_dec_digits(n: nat)
+    ensures dec(n).len() >= 1,
+            forall|i: int| 0 <= i < dec(n).len() ==> '0' <= #[trigger] dec(n)[i] <= '9',
+    decreases n
+{
+    if n >= 10 { lemma_dec_digits(n / 10); }
+}
+pub proof fn lemma_dec_ascii_nosp(n: nat)
+    ensures vstd::utf8::is_ascii_chars(dec(n)),
+            vstd::utf8::encode_utf8(dec(n)).len() == dec(n).len(),
+            forall|i: int| 0 <= i < dec(n).len() ==> #[trigger] vstd::utf8::encode_utf8(dec(n))[i] != 0x20u8,
+{
+    lemma_dec_digits(n);
+    assert(vstd::utf8::is_ascii_chars(dec(n))) by {
+        assert forall|i: int| 0 <= i < dec(n).len() implies (#[trigger] dec(n)[i] as u32) < 128 by {}
+    }
+    vstd::utf8::is_ascii_chars_encode_utf8(dec(n));
+}
+pub proof fn lemma_first_idx_skip<T>(a: Seq<T>, b: Seq<T>, p: spec_fn(T) -> bool)
+    requires forall|i: int| 0 <= i < a.len() ==> !p(#[trigger] a[i]),
+    ensures first_idx(a + b, p) == a.len() + first_idx(b, p),
+    decreases a.len()
+{
+    if a.len() == 0 { assert(a + b =~= b); }
+    else {
+        assert((a + b)[0] == a[0]);
+        assert((a + b).drop_first() =~= a.drop_first() + b);
+        assert forall|i: int| 0 <= i < a.drop_first().len() implies !p(#[trigger] a.drop_first()[i]) by { assert(a.drop_first()[i] == a[i + 1]); }
+        lemma_first_idx_skip(a.drop_first(), b, p);
+    }
+}
+// consuming `dec(n) ' ' rest` yields (n, rest)
+pub proof fn lemma_consume_dec(n: nat, rest: Seq<u8>)
+    requires n <= usize::MAX
+    ensures spec_consume(vstd::utf8::encode_utf8(dec(n)) + seq![0x20u8] + rest) == Some((n as usize, rest))
+{
+    let d = vstd::utf8::encode_utf8(dec(n));
+    let tail = seq![0x20u8] + rest;
+    let raw = d + seq![0x20u8] + rest;
+    lemma_dec_ascii_nosp(n);
+    assert(raw =~= d + tail);
+    assert forall|i: int| 0 <= i < d.len() implies !is_sp()(#[trigger] d[i]) by {}
+    lemma_first_idx_skip(d, tail, is_sp());
+    assert(is_sp()(tail[0]));
+    assert(first_idx(tail, is_sp()) == 0);
+    assert(first_idx(raw, is_sp()) == d.len());
+    assert(raw.subrange(0, d.len() as int) =~= d);
+    assert(raw.subrange(d.len() as int + 1, raw.len() as int) =~= rest);
+    vstd::utf8::encode_utf8_valid_utf8(dec(n));
+    vstd::utf8::encode_utf8_decode_utf8(dec(n));
+    fact_parse_usize_dec(n);
+}
+
+// ---- C20: unpack after pack returns the original pair; pack is injective ----
+pub proof fn lemma_pae_roundtrip(t: Seq<char>, p: Seq<u8>)
+    requires p.len() <= usize::MAX
+    ensures spec_unpack(spec_pae(t, p)) == Some((p, t))
+{
+    let tb = vstd::utf8::encode_utf8(t);
+    fact_str_len_fits(t);
+    let sp = seq![0x20u8];
+    let pre = pae_prefix();
+    let d1 = vstd::utf8::encode_utf8(dec(tb.len()));
+    let d2 = vstd::utf8::encode_utf8(dec(p.len()));
+    // the header splits into its encoded pieces
+    assert(vstd::utf8::encode_utf8(" "@) =~= sp) by {
+        reveal_strlit(" ");
+        assert(" "@ =~= seq![' ']);
+        assert(vstd::utf8::is_ascii_chars(" "@)) by { assert forall|i: int| 0 <= i < " "@.len() implies (#[trigger] " "@[i] as u32) < 128 by {} }
+        vstd::utf8::is_ascii_chars_encode_utf8(" "@);
+    }
+    let h = pae_header(t, p.len());
+    assert(vstd::utf8::encode_utf8(h) == pre + d1 + sp + tb + sp + d2 + sp) by {
+        vstd::utf8::encode_utf8_concat("DSSEv1"@, " "@);
+        vstd::utf8::encode_utf8_concat("DSSEv1"@ + " "@, dec(tb.len()));
+        vstd::utf8::encode_utf8_concat("DSSEv1"@ + " "@ + dec(tb.len()), " "@);
+        vstd::utf8::encode_utf8_concat("DSSEv1"@ + " "@ + dec(tb.len()) + " "@, t);
+        vstd::utf8::encode_utf8_concat("DSSEv1"@ + " "@ + dec(tb.len()) + " "@ + t, " "@);
+        vstd::utf8::encode_utf8_concat("DSSEv1"@ + " "@ + dec(tb.len()) + " "@ + t + " "@, dec(p.len()));
+        vstd::utf8::encode_utf8_concat("DSSEv1"@ + " "@ + dec(tb.len()) + " "@ + t + " "@ + dec(p.len()), " "@);
+    }
+    let bytes = spec_pae(t, p);
+    let raw0 = d1 + sp + (tb + sp + d2 + sp + p);
+    assert(bytes =~= pre + raw0);
+    assert(bytes.subrange(0, pre.len() as int) =~= pre);
+    assert(bytes.subrange(pre.len() as int, bytes.len() as int) =~= raw0);
+    let raw1 = tb + sp + d2 + sp + p;
+    lemma_consume_dec(tb.len(), raw1);
+    assert(raw1.subrange(0, tb.len() as int) =~= tb);
+    vstd::utf8::encode_utf8_valid_utf8(t);
+    vstd::utf8::encode_utf8_decode_utf8(t);
+    let raw1b = d2 + sp + p;
+    assert(raw1.subrange(tb.len() as int + 1, raw1.len() as int) =~= raw1b);
+    lemma_consume_dec(p.len(), p);
+    assert(p.subrange(0, p.len() as int) =~= p);
+}
+pub proof fn lemma_pae_injective(t1: Seq<char>, p1: Seq<u8>, t2: Seq<char>, p2: Seq<u8>)
+    requires p1.len() <= usize::MAX, p2.len() <= usize::MAX, spec_pae(t1, p1) == spec_pae(t2, p2)
+    ensures t1 == t2, p1 == p2
+{
+    lemma_pae_roundtrip(t1, p1);
+    lemma_pae_roundtrip(t2, p2);
+}
